@@ -367,7 +367,9 @@ fn run_l2(ops: &[Op2]) -> Verdict {
 pub struct C15;
 
 fn gen_l1(rng: &mut Rng) -> Vec<Op1> {
+    let long_history = rng.chance(1, 60);
     let n = match rng.below(4) {
+        _ if long_history => 60 + rng.usize(60),
         0 | 1 => 1 + rng.usize(5),
         2 => 3 + rng.usize(9),
         _ => 8 + rng.usize(20),
@@ -377,7 +379,7 @@ fn gen_l1(rng: &mut Rng) -> Vec<Op1> {
         .map(|_| match rng.below(12) {
             0..=5 => {
                 id += 1;
-                let k = rng.usize(3);
+                let k = if rng.chance(1, 40) { 9 + rng.usize(4) } else { rng.usize(3) };
                 let mut aliases: Vec<String> = (0..k).map(|_| rng.pick(&ALIASES1).to_string()).collect();
                 aliases.dedup();
                 Op1::Set { name: rng.pick(&NAMES1).to_string(), aliases, id }
